@@ -31,6 +31,7 @@ import (
 func init() {
 	ops["rpc"] = runRPC
 	ops["trunc"] = runTrunc
+	ops["garb"] = runGarb
 	ops["slots"] = runSlots
 }
 
@@ -38,6 +39,7 @@ func registerMore(g *hx.Gen, out *hx.Out) {
 	if hx.Want("rpc") {
 		genRPC(g, out)
 		genTrunc(g, out)
+		genGarb(g, out)
 	}
 	if hx.Want("slots") {
 		genSlots(g, out)
@@ -138,6 +140,106 @@ func runTrunc(args []string) []string {
 			return []string{"error"}
 		}
 		return []string{fmt.Sprintf("result %d bytes", len(resp))}
+	}
+}
+
+// garb: a peer that answers a request with a complete frame that is not a response of the expected
+// kind: every operation of the client that expects a structured response must return an error.
+// args: operation, reply hex      output: error | result
+func runGarb(args []string) []string {
+	cc, sc := socketPair()
+	go func() {
+		defer sc.Close()
+		var hdr [4]byte
+		if _, err := io.ReadFull(sc, hdr[:]); err != nil {
+			return
+		}
+		body := make([]byte, binary.BigEndian.Uint32(hdr[:]))
+		if _, err := io.ReadFull(sc, body); err != nil {
+			return
+		}
+		resp := hx.UnHex(args[1])
+		binary.BigEndian.PutUint32(hdr[:], uint32(len(resp)))
+		sc.Write(hdr[:])
+		sc.Write(resp)
+	}()
+	cl, err := yubiagent.NewClientFromConn(cc)
+	if err != nil {
+		panic(err)
+	}
+	defer cc.Close()
+	cc.SetDeadline(time.Now().Add(5 * time.Second))
+	theKey := fixedKey()
+	switch args[0] {
+	case "listslots":
+		_, err = cl.ListSlots()
+	case "readslot":
+		_, err = cl.ReadSlot("9a")
+	case "attestslot":
+		_, err = cl.AttestSlot("9a")
+	case "addhard":
+		err = cl.AddHardCert(theKey, "yk")
+	case "wait":
+		err = cl.Wait(11)
+	case "scadd":
+		err = cl.AddSmartcardKey("reader", []byte("123456"), time.Minute, true)
+	case "scremove":
+		err = cl.RemoveSmartcardKey("reader", []byte("123456"))
+	case "list":
+		_, err = cl.List()
+	case "sign":
+		_, err = cl.Sign(theKey, []byte("data"))
+	case "signers":
+		_, err = cl.Signers()
+	case "remove":
+		err = cl.Remove(theKey)
+	case "lock":
+		err = cl.Lock([]byte("pw"))
+	default:
+		panic("garb op " + args[0])
+	}
+	if err != nil {
+		return []string{"error"}
+	}
+	return []string{"result"}
+}
+
+func genGarb(g *hx.Gen, out *hx.Out) {
+	n := 0
+	// replies that are no response of the kind the operation expects: empty, a failure byte, a lone
+	// success byte where a structure is expected, a string length that overruns the frame, one string
+	// where two are expected, text, random bytes
+	structured := [][]byte{{}, {5}, {6}, {0xff, 0xff, 0xff, 0xff, 1}, {0, 0, 0, 2, 'a'}, sshStringB([]byte("9a")), []byte("SUCCES"), []byte("success"), {0}, g.Bytes(3), g.Bytes(9)}
+	// (the standard operations travel through x/crypto's client: malformed replies only — a well-formed
+	// reply of another type is finding F10)
+	for _, op := range []string{"list", "sign", "signers"} {
+		for _, r := range [][]byte{{}, {5}, {0xde, 0xad, 0xbe}, {12}, {12, 0, 0}, {14, 0, 0, 0, 9, 1}} {
+			args := []string{op, hx.Hex(r)}
+			out.Case(fmt.Sprintf("gb%d", n), "garb", args, safe(runGarb, args))
+			n++
+		}
+	}
+	for _, op := range []string{"listslots", "readslot", "attestslot"} {
+		for _, r := range structured {
+			args := []string{op, hx.Hex(r)}
+			out.Case(fmt.Sprintf("gb%d", n), "garb", args, safe(runGarb, args))
+			n++
+		}
+	}
+	// operations answered by a status: everything but the success marker is an error
+	for _, op := range []string{"addhard", "wait"} {
+		for _, r := range [][]byte{{}, {5}, {6}, []byte("SUCCES"), []byte("SUCCESS "), []byte("success"), []byte(" SUCCESS"), []byte("SUCCESSS"), {0}} {
+			args := []string{op, hx.Hex(r)}
+			out.Case(fmt.Sprintf("gb%d", n), "garb", args, safe(runGarb, args))
+			n++
+		}
+	}
+	for _, op := range []string{"scadd", "scremove", "remove", "lock"} {
+		for _, r := range [][]byte{{}, {5}, {5, 6}, {0}, {7}, {0, 0, 0, 1, 6}, []byte("SUCCESS")} {
+			args := []string{op, hx.Hex(r)}
+			out.Case(fmt.Sprintf("gb%d", n), "garb", args, safe(runGarb, args))
+			n++
+		}
 	}
 }
 
@@ -242,6 +344,24 @@ func runRPC(args []string) []string {
 			res = "connerr"
 		} else {
 			res = "ok " + hx.Hex(resp)
+		}
+	case "scadd", "scremove": // reader id hex, pin hex [, lifetime in nanoseconds, confirm]
+		var err error
+		if op == "scadd" {
+			lt, _ := strconv.ParseInt(p[2], 10, 64)
+			err = cl.AddSmartcardKey(string(hx.UnHex(p[0])), hx.UnHex(p[1]), time.Duration(lt), p[3] == "1")
+		} else {
+			err = cl.RemoveSmartcardKey(string(hx.UnHex(p[0])), hx.UnHex(p[1]))
+		}
+		switch {
+		case err == nil:
+			res = "ok"
+		case strings.Contains(err.Error(), "empty packet"):
+			res = "empty"
+		case strings.Contains(err.Error(), "agent failure"):
+			res = "failure"
+		default:
+			res = "connerr"
 		}
 	case "sign": // data hex, flags
 		fl, _ := strconv.Atoi(p[1])
@@ -359,7 +479,7 @@ func genRPC(g *hx.Gen, out *hx.Out) {
 		key = keys[g.Intn(len(keys))] // keys of every type, and certificates over them
 		_, pemBytes := fixedCert()
 		setup := []string{hx.StrList(sf.slots), hx.HexS(et), hx.Hex(key), hx.Hex(pemBytes)}
-		switch g.Intn(14) {
+		switch g.Intn(16) {
 		case 0:
 			comment := g.Pick([]string{"", "yk", "fail:boom", "fail:", "fail:SUCCESS", "fail:é", "é", "fail:SUCCESS ", "SUCCESS"})
 			blob := key
@@ -406,6 +526,18 @@ func genRPC(g *hx.Gen, out *hx.Out) {
 				d[0] = 0xFE
 			}
 			emit("sign", append([]string{hx.Hex(d), strconv.Itoa([]int{0, 2, 4}[g.Intn(3)])}, setup...)...)
+		case 14, 15:
+			// smartcard keys: reader ids whose first letter scripts the agent's reply (success, failure, empty
+			// reply, lost connection, success with trailing bytes, anything else), PINs incl. empty and binary,
+			// lifetimes of 0, below a second, whole and fractional seconds, the largest 32-bit count; confirm on / off
+			id := g.Pick([]string{"S", "Sreader", "F", "Fail reader", "E", "X", "Lreader", "", "other", "é", "S" + strings.Repeat("r", 300)})
+			pin := [][]byte{[]byte("123456"), {}, {0}, g.Bytes(8), []byte(strings.Repeat("9", 64))}[g.Intn(5)]
+			if g.Bool() {
+				lt := []int64{0, 1, 500000000, 1000000000, 1500000000, 60000000000, 3600000000000, 4294967295000000000}[g.Intn(8)]
+				emit("scadd", append([]string{hx.HexS(id), hx.Hex(pin), strconv.FormatInt(lt, 10), hx.B01(g.Bool())}, setup...)...)
+			} else {
+				emit("scremove", append([]string{hx.HexS(id), hx.Hex(pin)}, setup...)...)
+			}
 		case 9:
 			emit("add", append([]string{hx.HexS(g.Pick([]string{"c", "", "fail", "é comment", "日本"})), strconv.Itoa([]int{0, 60, 3600}[g.Intn(3)]), hx.B01(g.Bool())}, setup...)...)
 		case 10:
